@@ -680,7 +680,8 @@ class C01(ScanProperty):
     ID = 'C01'
     THEOREMS = [('Properties.C01', ['C01_longest_match_first_pattern', 'C01_priority_is_pattern_index', 'C01_stream_is_iterated_rule',
                                     'C01_skip_one_character', 'C01_lang_equiv_from_certificate', 'C01_find_equals_specification',
-                                    'C01_specification_is_maximal_candidate', 'C01_simple_builder_types', 'C01_nonvacuous']),
+                                    'C01_specification_is_maximal_candidate', 'C01_simple_builder_types', 'C01_nonvacuous',
+                                    'C01_judge_accepts_specification_stream']),
                 ('Properties.C01c', ['C01_compiled_mode_finds_specified_token', 'C01_compiled_scanner_is_specification',
                                      'C01_terminal_ids_are_pattern_order', 'C01_capstone_nonvacuous', 'C01_capstone_check_sound', 'C01_built_mode_ok', 'C01_source_rule',
                                      'C01_specification_patterns_are_the_source_patterns', 'C01_scanner_from_source_is_specification',
